@@ -220,6 +220,29 @@ def run_full(spec):
         got = "estimates" if exc3 is None else type(exc3).__name__
         V(f"C07/full/invalid-lists-not-rejected/{kind}", f"{kind} ({upd}): expected BootstrapElectionModelException, "
           f"got {got}")
+    # one client for the whole night ----------------------------------------------------------------------------
+    # the desk polls with the SAME client object and the same feed; only the lists change between polls: no calls,
+    # calls made, a contradictory call (must be rejected), calls retracted.  Every poll must answer like a fresh client.
+    if spec["i"] % 2 == 1 and res1 is not None:
+        night = cm.ModelClient()
+        d0, d1 = harness.results_digest(res0), harness.results_digest(res1)
+        seq = [("no-calls", call, d0), ("calls-made", c2, d1), ("contradictory", c3, None), ("calls-made-again", c2, d1),
+               ("calls-retracted", call, d0)]
+        for label, cc, want in seq:
+            r_, e_ = harness.run_estimates(el3 if cc is c3 else el, feed, cc, client=night)
+            out["counters"]["same_client_polls"] = out["counters"].get("same_client_polls", 0) + 1
+            if want is None:
+                if not isinstance(e_, BootstrapElectionModelException):
+                    V(f"C07/same-client/invalid-lists-not-rejected/{kind}", f"poll '{label}' on a client that has "
+                      f"answered before: expected BootstrapElectionModelException, got "
+                      f"{'estimates' if e_ is None else type(e_).__name__}")
+            elif e_ is not None:
+                V(f"C07/same-client/{label}/raised/{type(e_).__name__}", f"poll '{label}' raised {type(e_).__name__}: "
+                  f"{str(e_)[:200]}")
+            elif harness.results_digest(r_) != want:
+                V(f"C07/same-client/{label}/differs-from-fresh-client", f"poll '{label}' on the client of the night "
+                  f"does not return what a fresh client returns for lhs={cc.get('lhs_called_contests')} "
+                  f"rhs={cc.get('rhs_called_contests')} stop={cc.get('stop_model_call')}")
     out["nontrivial"] = bool(out["sigs"])
     if out["violations"]:
         out["inputs"] = gen.materialise(el, feed, c2)
